@@ -100,7 +100,13 @@ pub fn domain(dc: &Decaf, quick: bool) -> Vec<BigUint> {
     }
     // r0 solved for so that the inner inverse-square-root argument has a structured 2-primary
     // discrete log (every table digit value, roots of unity, all-ones ...)
-    for (r0, _) in crate::sqrtclass::elligator_r0s(dc, quick) {
+    let r0s = crate::sqrtclass::elligator_r0s(dc, quick);
+    if std::env::var("VERIF_DEBUG").is_ok() {
+        for e in [0u64, 1, 2, (1 << 47) - 1, (1 << 47) - 2] {
+            eprintln!("[debug] elligator r0 with inner dlog e={e}: {}", r0s.iter().filter(|x| x.1 == e).count());
+        }
+    }
+    for (r0, _) in r0s {
         v.push(r0);
     }
     // r0 solved for so that a named intermediate of the map (r, den, num, num*den, s) is a
@@ -172,7 +178,7 @@ pub fn run(ctx: &Arc<Ctx>) {
             r.machinery_error(format!("C07: control class {need} hit only {n} times"));
         }
     }
-    r.rule(format!("E3/C07[{BUILD}]: encode_to_curve on {} field elements (complete interval, negatives, 2^k+-1, roots of unity of every 2-power order and their negatives, zeta^k, limb patterns) vs elligatorSpec (class, encoding, sign symmetry, validity); hash_to_curve on the full {k}x{k} grid vs the reference sum; distinct by input", dom.len()));
+    r.rule(format!("E3/C07[{BUILD}]: encode_to_curve on {} field elements (complete interval, negatives, 2^k+-1, roots of unity of every 2-power order and their negatives, zeta^k, limb patterns, r0 solved for structured square-root digits of the inner argument and for boundary classes (target_family) of r / den / num / num*den / s, a fixed pseudo-random family) vs elligatorSpec (class, encoding, sign symmetry, validity); hash_to_curve on the full {k}x{k} grid vs the reference sum; distinct by input", dom.len()));
 }
 
 pub fn replay(case: &Value) -> (bool, Value) {
